@@ -21,7 +21,8 @@ EXTENDS Integers, Sequences, FiniteSets, TLC
 CONSTANTS Streams, Procs, NEvents,    \* events 1..NEvents; the stream of each is chosen freely
           M_Recharge,                \* tryDetach re-charges a stream that received events while detaching
           M_SignalOnPut,             \* put wakes the blocked owner (cond.Signal)
-          M_UnblockOnlyIfEmpty       \* tryUnblock injects a time-out only into a stream that is still empty
+          M_UnblockOnlyIfEmpty,      \* tryUnblock injects a time-out only into a stream that is still empty
+          M_CommitCheckUnderLock     \* stream.commit tests "older than commitSeq" and stores under ONE hold of the stream lock
 
 VARIABLES q, cur, away, com, att, det,        \* per stream
           charged,                            \* LIFO list of streams
@@ -115,7 +116,8 @@ TryUnblock(s) == /\ s \in blocked /\ (q[s] = <<>> \/ ~M_UnblockOnlyIfEmpty) /\ p
                  /\ UNCHANGED <<cur, away, com, att, det, charged, blocked, nput, sOf, seqOf, pc, ps, pe>>
 
 \* somebody finalizes a taken event: stream.commit (monotone max) + tryDetach when detaching
-Commit(e) == /\ where[e] = "taken" /\ panic = "" /\ \A p \in Procs : ~(pc[p] = "fin" /\ pe[p] = e)
+Commit(e) == /\ M_CommitCheckUnderLock
+             /\ where[e] = "taken" /\ panic = "" /\ \A p \in Procs : ~(pc[p] = "fin" /\ pe[p] = e)
              /\ LET s == sOf[e] IN
                   /\ com' = [com EXCEPT ![s] = IF seqOf[e] < @ THEN @ ELSE seqOf[e]]
                   /\ IF det[s] /\ away[s] = (IF seqOf[e] < com[s] THEN com[s] ELSE seqOf[e])
@@ -124,6 +126,22 @@ Commit(e) == /\ where[e] = "taken" /\ panic = "" /\ \A p \in Procs : ~(pc[p] = "
                        ELSE UNCHANGED <<att, det, charged>>
              /\ where' = [where EXCEPT ![e] = "committed"]
              /\ UNCHANGED <<q, cur, away, blocked, nput, sOf, seqOf, pc, ps, pe, panic>>
+
+\* the same in two steps (mutant: the stale test is done on the atomic commitSeq BEFORE the lock is taken): another finalization
+\* of the stream can store a bigger sequence number in between, which the store then overwrites
+CommitCheck(e) == /\ ~M_CommitCheckUnderLock
+                  /\ where[e] = "taken" /\ panic = "" /\ \A p \in Procs : ~(pc[p] = "fin" /\ pe[p] = e)
+                  /\ where' = [where EXCEPT ![e] = IF seqOf[e] < com[sOf[e]] THEN "committed" ELSE "checked"]
+                  /\ UNCHANGED <<q, cur, away, com, att, det, charged, blocked, nput, sOf, seqOf, pc, ps, pe, panic>>
+CommitStore(e) == /\ where[e] = "checked" /\ panic = ""
+                  /\ LET s == sOf[e] IN
+                       /\ com' = [com EXCEPT ![s] = seqOf[e]]
+                       /\ IF det[s] /\ away[s] = seqOf[e]
+                            THEN /\ att' = [att EXCEPT ![s] = FALSE] /\ det' = [det EXCEPT ![s] = FALSE]
+                                 /\ charged' = IF q[s] # <<>> /\ M_Recharge THEN Append(charged, s) ELSE charged
+                            ELSE UNCHANGED <<att, det, charged>>
+                  /\ where' = [where EXCEPT ![e] = "committed"]
+                  /\ UNCHANGED <<q, cur, away, blocked, nput, sOf, seqOf, pc, ps, pe, panic>>
 
 \* an action discards / collapses / holds the event: processor-side finalize (stream.commit), then either the next
 \* event of any stream (not busy) or the next event of THIS stream (busy action -> blockGet)
@@ -138,10 +156,10 @@ ProcFinalize(p) ==
 
 Next == \/ \E s \in Streams : Put(s) \/ TryUnblock(s)
         \/ \E p \in Procs : JoinPop(p) \/ Attach(p) \/ InstantGet(p) \/ BlockWait(p) \/ BlockGet(p) \/ ProcFinalize(p)
-        \/ \E e \in Ev : Commit(e)
+        \/ \E e \in Ev : Commit(e) \/ CommitCheck(e) \/ CommitStore(e)
 Spec == Init /\ [][Next]_vars
 FairSpec == Spec /\ \A p \in Procs : WF_vars(JoinPop(p) \/ Attach(p) \/ InstantGet(p) \/ BlockGet(p) \/ ProcFinalize(p))
-                 /\ \A e \in Ev : WF_vars(Commit(e)) /\ \A s \in Streams : WF_vars(TryUnblock(s))
+                 /\ \A e \in Ev : WF_vars(Commit(e) \/ CommitCheck(e) \/ CommitStore(e)) /\ \A s \in Streams : WF_vars(TryUnblock(s))
 
 -----------------------------------------------------------------------------
 NoCodePanic == panic = ""
@@ -156,8 +174,12 @@ ChargedRight == \A s \in Streams :
                   /\ (q[s] # <<>> /\ ~att[s] => Count(s) = 1 \/ InWindow(s))
                   /\ (Count(s) = 1 => ~att[s] /\ q[s] # <<>>)
 \* events of a stream are taken in the order they were put
-TakenInOrder == \A e, f \in Ev : sOf[e] = sOf[f] /\ seqOf[e] < seqOf[f] /\ where[f] \in {"taken", "committed"} /\ where[e] # "none"
-                                   => where[e] \in {"taken", "committed"}
+TakenInOrder == \A e, f \in Ev : sOf[e] = sOf[f] /\ seqOf[e] < seqOf[f] /\ where[f] \in {"taken", "checked", "committed"} /\ where[e] # "none"
+                                   => where[e] \in {"taken", "checked", "committed"}
+\* the commit sequence number of a stream never goes back (action property)
+CommitMonotone == [][\A s \in Streams : com'[s] >= com[s]]_vars
+\* once every event is finalized and every processor is back in joinStream no stream is owned any more
+AllReleased == (\A e \in Ev : where[e] = "committed") /\ (\A p \in Procs : pc[p] = "join") => \A s \in Streams : ~att[s]
 \* liveness: every event put is eventually taken, and once everything was put and committed all streams are released
 AllTaken == \A e \in Ev : (where[e] = "queued") ~> (where[e] # "queued")
 =============================================================================
